@@ -22,6 +22,7 @@ noncomputable instance instScalarReal : Scalar ℝ where
   pi := Real.pi
   pow := Real.rpow
   atan2 y x := Complex.arg ⟨x, y⟩
+  tan := Real.tan
   nanToNum x := x
   decLt _ _ := Classical.propDecidable _
   decLe _ _ := Classical.propDecidable _
